@@ -78,7 +78,7 @@ func suiteText(tier string, seed uint64, model string) *Report {
 	r := NewRng(seed)
 	n := 12000
 	if tier == "thorough" {
-		n = 150000
+		n = 600000
 	}
 	// ---- string literals: AppendString vs the Coq model, for all 1- and 2-byte ASCII strings
 	var sreqs []string
